@@ -37,6 +37,7 @@ class Graph(object):
         self.form_hash = {}     # (mask, frozenset) -> node
         self.lut = {}           # kind-5 node -> (ins tuple of positive literals, tt int)
         self.lut_hash = {}
+        self.sum_flatten_max = 1 << 30
         self.sums = {}          # result literals -> (sorted operand literal tuples, constant): canonical modular sums
         self.sum_cache = {}
         self._lut_cache = {}
@@ -523,7 +524,9 @@ def add_canonical(a, b, w):
             const = (const + x) & ((1 << w) - 1)
             continue
         f = G.sums.get(tuple(x.bits))
-        if f is None:
+        if f is None or len(f[0]) > G.sum_flatten_max:
+            # long sums stay atoms: hash functions feed sums into sums round after round, and unbounded flattening
+            # would re-add ever longer operand lists
             terms.append(tuple(x.bits))
         else:
             terms.extend(f[0])
